@@ -222,6 +222,7 @@ func (r *ClientPeerRef) Send(ctx context.Context, msg []byte) (_ *signaling_rpc.
 		}
 
 		tkr.bcast.HoldLock(func(broadcast func(), getWaitCh func() <-chan struct{}) {
+			defer verifClientEvent(tkr, "sendcancel", seqno, 0, txed, sessionSeqno, acked)
 			if tkr.out != nil && tkr.out.Seqno == seqno {
 				// If the message was already acknowledged, clear it.
 				if !tkr.outSent || tkr.outAcked {
@@ -239,6 +240,7 @@ func (r *ClientPeerRef) Send(ctx context.Context, msg []byte) (_ *signaling_rpc.
 	for {
 		var waitCh <-chan struct{}
 		tkr.bcast.HoldLock(func(broadcast func(), getWaitCh func() <-chan struct{}) {
+			defer func() { verifClientEvent(tkr, "sendstep", seqno, 0, txed, sessionSeqno, acked) }()
 			// Stream with remote is not opened yet. Wait.
 			if tkr.open == nil {
 				txed = false
@@ -316,6 +318,7 @@ func (r *ClientPeerRef) Recv(ctx context.Context) (*signaling_rpc.SessionMsg, er
 	for {
 		var waitCh <-chan struct{}
 		tkr.bcast.HoldLock(func(broadcast func(), getWaitCh func() <-chan struct{}) {
+			defer func() { verifClientEvent(tkr, "recvstep", 0, 0, recv != nil, nil, false) }()
 			// If recv == nil, there is no message to receive, wait.
 			// If recvProcessed, is set someone else already received this message, wait.
 			if tkr.recv == nil || tkr.recvProcessed {
@@ -417,6 +420,7 @@ func (s *clientPeerTracker) execute(ctx context.Context) error {
 	// handleClose handles cleaning up when the session is closed.
 	handleClose := func() {
 		s.bcast.HoldLock(func(broadcast func(), getWaitCh func() <-chan struct{}) {
+			defer verifClientEvent(s, "close", 0, 0, false, nil, false)
 			if s.open != nil {
 				s.open = nil
 				broadcast()
@@ -435,6 +439,7 @@ func (s *clientPeerTracker) execute(ctx context.Context) error {
 	// handleOpen handles when the session is opened.
 	handleOpen := func(seqno uint64) {
 		s.bcast.HoldLock(func(broadcast func(), getWaitCh func() <-chan struct{}) {
+			defer verifClientEvent(s, "opened", seqno, 0, false, nil, false)
 			if s.open == nil || *s.open != seqno {
 				s.le.Debugf("signaling: client: session opened with seqno %v", seqno)
 				s.open = &seqno
@@ -450,6 +455,7 @@ func (s *clientPeerTracker) execute(ctx context.Context) error {
 		// Extract and verify the signed message.
 		_, id, err := msg.ExtractAndVerify()
 		if err != nil {
+			verifClientEvent(s, "recvrej", msg.GetSeqno(), 0, false, nil, false)
 			return err
 		}
 
@@ -457,6 +463,7 @@ func (s *clientPeerTracker) execute(ctx context.Context) error {
 		expectedPeerIDStr := s.key
 		actualPeerIDStr := id.String()
 		if expectedPeerIDStr != actualPeerIDStr {
+			verifClientEvent(s, "recvrej", msg.GetSeqno(), 1, false, nil, false)
 			return errors.Errorf("expected message peer id %s but got %s", expectedPeerIDStr, actualPeerIDStr)
 		}
 
@@ -464,6 +471,7 @@ func (s *clientPeerTracker) execute(ctx context.Context) error {
 			// s.le.Debugf("signaling: client: recv msg: %v", msg.String())
 			s.recv, s.recvProcessed = msg, false
 			broadcast()
+			verifClientEvent(s, "recvmsg", msg.GetSeqno(), 0, false, nil, false)
 		})
 
 		return nil
@@ -473,6 +481,7 @@ func (s *clientPeerTracker) execute(ctx context.Context) error {
 	handleClearMsg := func(msgSeqno uint64) {
 		s.bcast.HoldLock(func(broadcast func(), getWaitCh func() <-chan struct{}) {
 			// s.le.Debugf("signaling: client: remote cleared msg: %v", msgSeqno)
+			defer verifClientEvent(s, "clearmsg", msgSeqno, 0, false, nil, false)
 			if s.recv != nil && s.recv.Seqno == msgSeqno {
 				s.recv, s.recvProcessed = nil, false
 				broadcast()
@@ -484,6 +493,7 @@ func (s *clientPeerTracker) execute(ctx context.Context) error {
 	handleAckMsg := func(msgSeqno uint64) {
 		s.bcast.HoldLock(func(broadcast func(), getWaitCh func() <-chan struct{}) {
 			// s.le.Debugf("signaling: client: remote acked msg: %v", msgSeqno)
+			defer verifClientEvent(s, "ackmsg", msgSeqno, 0, false, nil, false)
 			if s.out != nil && s.out.Seqno == msgSeqno {
 				if s.outCancel {
 					s.out, s.outAcked, s.outCancel, s.outSent = nil, false, false, false
@@ -562,6 +572,13 @@ func (s *clientPeerTracker) execute(ctx context.Context) error {
 		var sessSeqno uint64
 
 		s.bcast.HoldLock(func(broadcast func(), getWaitCh func() <-chan struct{}) {
+			defer func() {
+				var sm uint64
+				if sendMsg != nil {
+					sm = sendMsg.GetSeqno()
+				}
+				verifClientLoop(s, sessSeqno, cancelMsg, sm, ackRecvMsg)
+			}()
 			// If the session is open...
 			if s.open != nil {
 				// Get session seqno
